@@ -22,6 +22,7 @@ static Json evalArith(const std::string& f, const double den) {
   }
   return r;
 }
+static std::string fdClass(const std::string&, const std::string&, const double);
 static Json evalDeriv(const std::string& f, const std::string& var, const double den) {
   Json r = Json::object();
   try {
@@ -31,9 +32,9 @@ static Json evalDeriv(const std::string& f, const std::string& var, const double
     d->setVariableValue(1, Y);
     const double v = d->getValue();
     const auto e = vp::exact(v, den, 1e-9 * std::max(1.0, std::fabs(v * den)));
-    r.set("got", Json("value")).set("q", Json(e.q)).set("tight", Json(e.tight));
+    r.set("got", Json("value")).set("q", Json(e.q)).set("tight", Json(e.tight)).set("fd", Json(fdClass(f, var, v)));
   } catch (std::exception&) {
-    r.set("got", Json("throw")).set("q", Json(0)).set("tight", Json(false));
+    r.set("got", Json("throw")).set("q", Json(0)).set("tight", Json(false)).set("fd", Json("na"));
   }
   return r;
 }
@@ -71,6 +72,20 @@ static double at(const std::string& f, const double x, const double y) {
   ev.setVariableValue("y", y);
   return ev.getValue();
 }
+// comparison of a derivative value with a Richardson finite difference of the evaluator's own values
+static std::string fdClass(const std::string& f, const std::string& var, const double dv) {
+  try {
+    const double h = 1e-3;
+    const bool wx = var == "x";
+    auto v = [&](const double s) { return wx ? at(f, X + s, Y) : at(f, X, Y + s); };
+    const double d1 = (v(h) - v(-h)) / (2 * h);
+    const double d2 = (v(h / 2) - v(-h / 2)) / h;
+    const double fd = (4 * d2 - d1) / 3;
+    if (std::isfinite(fd)) return (std::fabs(dv - fd) <= 1e-6 * std::max(1.0, std::fabs(fd))) ? "match" : "mismatch";
+  } catch (std::exception&) {
+  }
+  return "na";
+}
 static void fnCase(Json& r, const std::string& f, const double expected, const bool expectThrow) {
   r.set("expect", Json(expectThrow ? "throw" : "value"));
   double v = 0;
@@ -81,25 +96,21 @@ static void fnCase(Json& r, const std::string& f, const double expected, const b
     threw = true;
   }
   r.set("got", Json(threw ? "throw" : "value")).set("agree", Json(!threw && ulpClose(v, expected)));
-  // C14: derivative with respect to x against a Richardson finite difference of the evaluator's own values
-  std::string dgot = "throw", dclass = "na";
-  try {
-    Evaluator ev(VARS, f);
-    auto d = ev.differentiate("x");
-    d->setVariableValue(0, X);
-    d->setVariableValue(1, Y);
-    const double dv = d->getValue();
-    dgot = "value";
+  // C14: derivatives with respect to x and y against a Richardson finite difference of the evaluator's own values
+  std::string dgot = "throw", dclass = "na", dgoty = "throw", dclassy = "na";
+  for (const std::string var : {"x", "y"}) {
     try {
-      const double h = 1e-3;
-      const double d1 = (at(f, X + h, Y) - at(f, X - h, Y)) / (2 * h);
-      const double d2 = (at(f, X + h / 2, Y) - at(f, X - h / 2, Y)) / h;
-      const double fd = (4 * d2 - d1) / 3;
-      if (std::isfinite(fd)) dclass = (std::fabs(dv - fd) <= 1e-6 * std::max(1.0, std::fabs(fd))) ? "match" : "mismatch";
+      Evaluator ev(VARS, f);
+      auto d = ev.differentiate(var);
+      d->setVariableValue(0, X);
+      d->setVariableValue(1, Y);
+      const double dv = d->getValue();
+      (var == "x" ? dgot : dgoty) = "value";
+      (var == "x" ? dclass : dclassy) = fdClass(f, var, dv);
     } catch (std::exception&) {
     }
-  } catch (std::exception&) {
   }
+  r.set("dgoty", Json(dgoty)).set("dclassy", Json(dclassy));
   r.set("dgot", Json(dgot)).set("dclass", Json(dclass));
 }
 int main(int argc, char** argv) {
@@ -130,6 +141,7 @@ int main(int argc, char** argv) {
       double e = 0;
       errno = 0;
       if (kind == "fn") e = 1 + unary(c["f"].asStr())(a) * 2;
+      else if (kind == "fnn") { e = unary(c["f"].asStr())(unary(c["g"].asStr())(a)) + a; r.set("f", Json(c["f"].asStr() + "(" + c["g"].asStr() + ")")); }
       else if (kind == "fn2") e = binary(c["f"].asStr(), a, argValue(c["arg2"].asStr())) - 1;
       else { e = std::pow(a, double(c["n"].asInt())); r.set("f", Json("power")); }
       const bool bad = !std::isfinite(e) || errno != 0;
